@@ -59,7 +59,8 @@ def handleCli (toks : List String) : Option String :=
               definitionsDir := optStr defs }
             match Cli.run symbolicHex fs (unhexStr cwd) args with
             | (.unsupported why, _) => some s!"unsupported {hexStr why}"
-            | (.code n, fs') =>
+            | (st, fs') =>
+              let n := match st with | .code n => n | .osError n _ => n | .unsupported _ => 0
               let changed := fs'.files.filter (fun (p, b) => fs.readBytes p ≠ some b)
               let body := changed.map (fun (p, b) => s!"{hexStr p} {hexBytes b}")
               some (" ".intercalate (s!"exit {n}" :: toString changed.length :: body))
